@@ -114,11 +114,22 @@ impl Memoizable for FmtA {
         construct_common("A", lang, hex(&args.0), 0).map(FmtA)
     }
 }
+/// arguments whose `Hash` is deliberately weak (length only) while `Eq` compares everything: a memoizer that
+/// keys its cache by the hash alone, or compares only part of the arguments, conflates distinct keys of type B
+#[derive(Clone, PartialEq, Eq)]
+struct WeakHashArgs(String);
+
+impl std::hash::Hash for WeakHashArgs {
+    fn hash<H: std::hash::Hasher>(&self, h: &mut H) {
+        self.0.len().hash(h)
+    }
+}
+
 impl Memoizable for FmtB {
-    type Args = (String,);
+    type Args = (WeakHashArgs,);
     type Error = String;
     fn construct(lang: LanguageIdentifier, args: Self::Args) -> Result<Self, Self::Error> {
-        construct_common("B", lang, hex(&args.0), 0).map(FmtB)
+        construct_common("B", lang, hex(&(args.0).0), 0).map(FmtB)
     }
 }
 impl Memoizable for FmtF {
@@ -204,10 +215,10 @@ fn lookup_seq(m: &SeqMemo, l: &Lookup) -> Result<String, String> {
     let x = l.x;
     match (&l.key, l.via_kind) {
         (Key::A(s), false) => m.with_try_get::<FmtA, _, _>((s.clone(),), |f| callback(&f.0, x)),
-        (Key::B(s), false) => m.with_try_get::<FmtB, _, _>((s.clone(),), |f| callback(&f.0, x)),
+        (Key::B(s), false) => m.with_try_get::<FmtB, _, _>((WeakHashArgs(s.clone()),), |f| callback(&f.0, x)),
         (Key::F(s, n), false) => m.with_try_get::<FmtF, _, _>((s.clone(), *n), |f| callback(&f.0, x)),
         (Key::A(s), true) => m.with_try_get_threadsafe::<FmtA, _, _>((s.clone(),), |f| callback(&f.0, x)),
-        (Key::B(s), true) => m.with_try_get_threadsafe::<FmtB, _, _>((s.clone(),), |f| callback(&f.0, x)),
+        (Key::B(s), true) => m.with_try_get_threadsafe::<FmtB, _, _>((WeakHashArgs(s.clone()),), |f| callback(&f.0, x)),
         (Key::F(s, n), true) => {
             m.with_try_get_threadsafe::<FmtF, _, _>((s.clone(), *n), |f| callback(&f.0, x))
         }
@@ -218,10 +229,10 @@ fn lookup_conc(m: &ConcMemo, l: &Lookup) -> Result<String, String> {
     let x = l.x;
     match (&l.key, l.via_kind) {
         (Key::A(s), false) => m.with_try_get::<FmtA, _, _>((s.clone(),), |f| callback(&f.0, x)),
-        (Key::B(s), false) => m.with_try_get::<FmtB, _, _>((s.clone(),), |f| callback(&f.0, x)),
+        (Key::B(s), false) => m.with_try_get::<FmtB, _, _>((WeakHashArgs(s.clone()),), |f| callback(&f.0, x)),
         (Key::F(s, n), false) => m.with_try_get::<FmtF, _, _>((s.clone(), *n), |f| callback(&f.0, x)),
         (Key::A(s), true) => m.with_try_get_threadsafe::<FmtA, _, _>((s.clone(),), |f| callback(&f.0, x)),
-        (Key::B(s), true) => m.with_try_get_threadsafe::<FmtB, _, _>((s.clone(),), |f| callback(&f.0, x)),
+        (Key::B(s), true) => m.with_try_get_threadsafe::<FmtB, _, _>((WeakHashArgs(s.clone()),), |f| callback(&f.0, x)),
         (Key::F(s, n), true) => {
             m.with_try_get_threadsafe::<FmtF, _, _>((s.clone(), *n), |f| callback(&f.0, x))
         }
